@@ -2,7 +2,7 @@
 import ast
 
 from ..model import AnchorError, call_name, const_str, dotted, src
-from ..rules import FuncView, suffix_match, defect_scope
+from ..rules import FuncView, suffix_match, defect_scope, path_condition, formula_implies
 
 EXPLANATION = (
     "Failure atomicity (T8) of addRemote/moveRemote/renameRemote/rehaRemote/removeRemote: every raise precedes "
@@ -70,12 +70,14 @@ def check(ctx):
                   "remotes (rejected operations must change nothing)" % (name, src(bad[0][0].ast)[:60] if bad else ""))
     A = views["addRemote"]
     for attr, idx in IDX.items():
-        t = A.tests(lambda t, attr=attr, idx=idx: src(t).replace(" ", "") == ("remote.%s in self.%s or remote.%s in (self.local.%s,)" % (attr, idx, attr, attr)).replace(" ", ""))
-        st = [n for n in A.cfg.nodes if any(isinstance(x, ast.Subscript) and isinstance(x.ctx, ast.Store) and src(x) == "self.%s[remote.%s]" % (idx, attr)
-                                            for x in A.cfg.walk_node(n))]
-        raises = [n for n in A.cfg.nodes if n.kind == "raise"]
-        ok = bool(t) and len(st) == 1 and any(A.dominated_by_edge([r], t[0], "T") for r in raises) and A.dominated_by_edge(st, t[0], "F") and \
-            src(st[0].ast.value) == "remote"
+        st = [n for n in A.cfg.nodes if isinstance(n.ast, ast.Assign) and any(
+            isinstance(x, ast.Subscript) and isinstance(x.ctx, ast.Store) and src(A.sym(x.value, n)) == "self." + idx for x in n.ast.targets)]
+        ok = len(st) == 1
+        if ok:
+            tg = st[0].ast.targets[0]
+            ok = src(A.sym(tg.slice, st[0])) == "remote." + attr and src(A.sym(st[0].ast.value, st[0])) == "remote"
+            pc = path_condition(A, st[0], start=[A.cfg.entry.id])
+            ok = ok and formula_implies(pc, "not (remote.%s in self.%s) and not (remote.%s == self.local.%s)" % (attr, idx, attr, attr))
         ctx.check(ok, "T6-add-remove", A.fn, "addRemote: remote.%s checked against %s and the local device, then self.%s[remote.%s] = remote" % (attr, idx, idx, attr),
                   "the three indexes would not contain exactly the same remotes, or a key could collide with the local device")
     Rm = views["removeRemote"]
@@ -86,22 +88,47 @@ def check(ctx):
     for name, attr in (("moveRemote", "uid"), ("renameRemote", "name"), ("rehaRemote", "ha")):
         V = views[name]
         idx = IDX[attr]
-        t = src(V.fn)
-        attrs_set = {x.attr for n in V.cfg.nodes for x in V.cfg.walk_node(n) if isinstance(x, ast.Attribute) and isinstance(x.ctx, ast.Store) and dotted(x.value) == "remote"}
-        idx_touched = {i for i in IDX.values() if any(i in src(m.ast) for m in _mutations(V))}
-        ok = attrs_set == {attr} and idx_touched == {idx}
-        ok = ok and ("index = self.%s.keys().index(old)" % idx) in t and ("del self.%s[old]" % idx) in t and \
-            ("self.%s.insert(index, new, remote)" % idx) in t and ("remote.%s = new" % attr) in t and ("old = remote.%s" % attr) in t
-        chk = V.tests(lambda tt, attr=attr, idx=idx: src(tt).replace(" ", "") == ("new in self.%s or new in (self.local.%s,)" % (idx, attr)).replace(" ", ""))
-        same = V.tests(lambda tt, idx=idx: src(tt) == "remote is not self.%s[old]" % idx)
-        ok = ok and bool(chk) and bool(same)
-        # order: index computed before delete, delete before insert
-        V2 = V
-        ix = [n for n in V2.cfg.nodes if isinstance(n.ast, ast.Assign) and dotted(n.ast.targets[0]) == "index"]
-        dl = [n for n in V2.cfg.nodes if isinstance(n.ast, ast.Delete)]
-        ins = V2.call_nodes("self.%s.insert" % idx)
-        ok = ok and bool(ix) and bool(dl) and bool(ins) and V2.dominated(dl, ix) and V2.dominated(ins, dl)
-        ctx.check(ok, "T6-rekey", V.fn, "%s: remote.%s = new; %s re-keyed old->new at the same position; new checked against %s and local.%s" % (name, attr, idx, idx, attr),
+        cfg = V.cfg
+        sv = lambda e, n: src(V.sym(e, n))
+        astores = [(n, x) for n in cfg.nodes for x in cfg.walk_node(n) if isinstance(x, ast.Attribute) and isinstance(x.ctx, ast.Store)
+                   and dotted(x.value) == "remote"]
+        muts = _mutations(V)
+        idx_touched = {i for i in IDX.values() for m in muts for x in cfg.walk_node(m)
+                       if isinstance(x, (ast.Subscript, ast.Attribute)) and src(V.sym(x, m)).startswith("self." + i)}
+        ok = {x.attr for _, x in astores} == {attr} and idx_touched == {idx}
+        why = []
+        if not ok:
+            why.append("touches attributes %s / indexes %s" % (sorted({x.attr for _, x in astores}), sorted(idx_touched)))
+        # the attribute takes the new key; the old key is read before that
+        setn = [n for n, x in astores if x.attr == attr]
+        ok1 = bool(setn) and all(isinstance(n.ast, ast.Assign) and sv(n.ast.value, n) == "new" for n in setn)
+        readers = [n for n in cfg.nodes if n not in setn and any(isinstance(x, ast.Attribute) and isinstance(x.ctx, ast.Load) and
+                                                                  src(x) == "remote." + attr for x in cfg.walk_node(n))]
+        ok1 = ok1 and not any(r.id in cfg.reachable(s_.id) for s_ in setn for r in readers if r.id != s_.id)
+        if not ok1:
+            why.append("remote.%s = new missing, or the old key is read after it" % attr)
+        # the index entry: delete old, insert (position of old, new, remote)
+        dl = [n for n in cfg.nodes if isinstance(n.ast, ast.Delete) and any(sv(t, n) == "self.%s[remote.%s]" % (idx, attr) for t in n.ast.targets)]
+        ins = [(n, c) for n, c in V.calls("self.%s.insert" % idx)]
+        ok2 = len(dl) == 1 and len(ins) == 1
+        if ok2:
+            n, c = ins[0]
+            args = [sv(a_, n) for a_ in c.args]
+            ok2 = args == ["self.%s.keys().index(remote.%s)" % (idx, attr), "new", "remote"] and not c.keywords
+            # the position is taken before the delete, the insert comes after the delete
+            pos = [d for d in cfg.nodes if isinstance(d.ast, ast.Assign) and ".keys().index(" in src(d.ast.value)]
+            ok2 = ok2 and V.dominated([n], dl) and (not pos or V.dominated(dl, pos)) and (bool(pos) or False)
+        if not ok2:
+            why.append("index entry is not moved old -> (same position, new, remote)")
+        # accepted only if the new key is free (index and local device) and the remote is the one indexed under the old key
+        ok3 = bool(dl) and formula_implies(path_condition(V, dl[0], start=[cfg.entry.id]),
+                                           "not (new in self.%s) and not (new == self.local.%s) and remote.%s in self.%s and remote is self.%s[remote.%s]"
+                                           % (idx, attr, attr, idx, idx, attr))
+        if not ok3:
+            why.append("acceptance condition does not imply: new key free in %s and != local.%s, old key present, remote identical to the indexed one" % (idx, attr))
+        ctx.check(ok and ok1 and ok2 and ok3, "T6-rekey", V.fn,
+                  "%s: remote.%s = new; %s re-keyed old->new at the same position; new checked against %s and local.%s%s"
+                  % (name, attr, idx, idx, attr, (" [" + "; ".join(why) + "]") if why else ""),
                   "a re-key must change exactly its own attribute and index, keep the remote's position in iteration order, and refuse "
                   "keys that collide with another remote or with the local device")
     defect_scope(ctx, "D-scope", [views[k].fn for k in views], max_depth=0, floor=5, label="scope: RemoteStack remote index methods")
